@@ -185,6 +185,12 @@ int main (int argc, char** argv)
     out ("nsq", normsq (v)); out ("nsqre", normsq (re)); out ("nrm2", norm (re) * norm (re));
     if (!symbolic) { for (unsigned i=0; i<3; i++) { expect ("real part of a complex vector", re[i], v[i].real ()); expect ("imaginary part of a complex vector", im[i], v[i].imag ()); expect ("conjugate of a complex vector", c[i], std::conj (v[i])); }
       expect_true ("a vector equals itself and differs from its negative", v == v && !(v != v) && (v != -v || normsq (v) == 0) && !(re == im && re != im)); } });
+  // negation, zero() and the converting assignment of matrices
+  fn ("matrix_negate_zero_assign", [] { Matrix<2,3,double> a = mat_in<2,3> ("a"); Matrix<2,3,double> n = -a, z = a; z.zero ();
+    Matrix<2,3,cd> c; c = a; Matrix<2,3,cd> d (a);
+    out_m ("n", n); out_m ("z", z); out_cm ("c", c); out_cm ("d", d);
+    if (!symbolic) for (unsigned i=0; i<2; i++) for (unsigned j=0; j<3; j++) { expect ("negation of a matrix", n[i][j], -a[i][j]); expect ("zero()", z[i][j], 0.0);
+      expect ("complex matrix assigned from a real matrix", c[i][j], cd (a[i][j])); expect ("complex matrix constructed from a real matrix", d[i][j], cd (a[i][j])); } });
   fn ("matrix_normsq", [] { Matrix<2,3,double> a = mat_in<2,3> ("a"); Matrix<3,2,double> b = mat_in<3,2> ("b"); Matrix<2,2,cd> c = cmat_in<2,2> ("c");
     out ("ns23", normsq (a)); out ("ns32", normsq (b)); out ("nsc", normsq (c));
     if (!symbolic) { double w = 0; for (unsigned i=0; i<2; i++) for (unsigned j=0; j<3; j++) w += a[i][j] * a[i][j]; expect ("normsq of a 2x3 matrix is the sum of squares", normsq (a), w);
